@@ -289,8 +289,9 @@ def getB (k : Disk) (d : Digest) : Out :=
 
 /-- `Link(name, d)`: the blob FILE must open; its bytes are copied IN PLACE over the manifest name with
     `copyNamedFile` (same-size shortcut included).  `fixed = true` is the repaired variant
-    (proposed_fixes/C08-F8.patch): a zero-length blob file counts as absent and the manifest is written to a
-    fresh temporary name and renamed over the link. -/
+    (proposed_fixes/C08-F8.patch): nothing happens if the name already holds a manifest that hashes to `d`;
+    otherwise the blob is copied (and verified) into a fresh temporary name which is renamed over the link,
+    so a refused `Link` leaves the old link alone. -/
 def link (hash : Bytes → Digest) (fixed : Bool) (k : Disk) (name : Bytes) (d : Digest) : Disk × Res :=
   match nameToPath name with
   | none => (k, .invalidName)
@@ -300,11 +301,11 @@ def link (hash : Bytes → Digest) (fixed : Bool) (k : Disk) (name : Bytes) (d :
     | none => (k, .notExist)
     | some f =>
       if fixed then
-        if f.length = 0 then (k, .notExist)
+        if (manGet k.mans p).map hash = some d then (k, .ok)
         else
           let r := copyNamedEffs hash none d f.length ⟨[f], .eof⟩
           match r.2 with
-          | .ok => ({ k with mans := manSet k.mans p (some f) }, .ok)
+          | .ok => ({ k with mans := manSet k.mans p (run r.1 none) }, .ok)
           | e => (k, e)
       else
         let r := copyNamedEffs hash (manGet k.mans p) d f.length ⟨[f], .eof⟩
